@@ -1,6 +1,7 @@
 import Xrl.Lemmas.Tactics
 import Xrl.Spec.Scatter
-import Xrl.Gen.Fns
+import Xrl.Gen.F_scattering
+import Xrl.Gen.F_polarized
 import Mathlib.Analysis.SpecialFunctions.Log.Deriv
 import Mathlib.Analysis.SpecialFunctions.Trigonometric.Deriv
 import Mathlib.Analysis.SpecialFunctions.Trigonometric.Bounds
